@@ -140,6 +140,7 @@ func (l *LockingStreamer) Read(p []byte) (int, error) {
 	if l.timedOut.Is() {
 		return 0, ErrSnapshotReaderTimeout
 	}
+	verifhook.Yield("snapshot.stream.read")
 	n, err := l.ReadCloser.Read(p)
 	if n > 0 {
 		l.lastRead.Store(time.Now().UnixNano())
@@ -149,6 +150,7 @@ func (l *LockingStreamer) Read(p []byte) (int, error) {
 
 // Close closes the Snapshot and releases the Snapshot Store lock.
 func (l *LockingStreamer) Close() error {
+	verifhook.Yield("snapshot.stream.close")
 	l.mu.Lock()
 	defer l.mu.Unlock()
 	if l.closed.Is() {
@@ -167,6 +169,7 @@ func (l *LockingStreamer) Close() error {
 // Snapshot Store read lock is released. Otherwise the timer is re-armed
 // for the remaining idle window.
 func (l *LockingStreamer) checkIdle() {
+	verifhook.Yield("snapshot.stream.checkidle")
 	l.mu.Lock()
 	defer l.mu.Unlock()
 	if l.closed.Is() {
@@ -180,6 +183,7 @@ func (l *LockingStreamer) checkIdle() {
 	}
 	l.timedOut.Set()
 	l.closed.Set()
+	verifhook.Note("snapshot.stream.idle-close", int64(idle))
 	stats.Add(readTimeoutTotal, 1)
 	l.str.logger.Printf("snapshot reader idle for %s, forcing close", idle)
 	if closeErr := l.ReadCloser.Close(); closeErr != nil {
@@ -386,9 +390,11 @@ func (s *Store) SetReadTimeout(d time.Duration) {
 // creates will be visible or not. Reaping will not see it until it is fully created,
 // and Listing it will not return it until it is fully created too.
 func (s *Store) Open(id string) (raftMeta *raft.SnapshotMeta, rc io.ReadCloser, retErr error) {
+	verifhook.Yield("snapshot.open.pre")
 	if err := s.mrsw.BeginRead(); err != nil {
 		return nil, nil, fmt.Errorf("acquiring read lock: %w", err)
 	}
+	verifhook.Yield("snapshot.open.locked")
 	defer func() {
 		if retErr != nil {
 			s.mrsw.EndRead()
@@ -803,6 +809,7 @@ func (s *Store) reapLoop() {
 		case <-s.reapDoneCh:
 			return
 		}
+		verifhook.Yield("snapshot.reaploop.signalled")
 
 		if s.reapDisabled.Is() {
 			continue
@@ -816,7 +823,10 @@ func (s *Store) reapLoop() {
 		startT := time.Now()
 		n, c, err := func() (int, int, error) {
 			defer recordDuration(autoReapDuration, startT)
+			verifhook.Yield("snapshot.reaploop.pre-lock")
 			s.mrsw.BeginWriteBlocking("reap")
+			verifhook.Note("snapshot.reaploop.locked", 0)
+			defer verifhook.Note("snapshot.reaploop.unlocked", 0)
 			defer s.mrsw.EndWrite()
 			return s.reap()
 		}()
